@@ -14,11 +14,12 @@ import (
 )
 
 type concPay struct {
-	events []string
-	err    string // scenario: "nil", "EOF", "other", "" = unknown
-	n      string // "0", "pos", "" = unknown
-	errObj types.Object
-	nObj   types.Object
+	rerrNil string // scenario for the caller: "nil" / "nonnil" / "" — the value received from rerr
+	events  []string
+	err     string // scenario: "nil", "EOF", "other", "" = unknown
+	n       string // "0", "pos", "" = unknown
+	errObj  types.Object
+	nObj    types.Object
 }
 
 func (p *concPay) Clone() Payload {
@@ -29,9 +30,10 @@ func (p *concPay) Clone() Payload {
 
 type pfModel struct {
 	Func      *ast.FuncDecl
-	Chans     map[types.Object]string // channel variable -> name
-	Reader    *ast.FuncLit
-	Parser    *ast.FuncLit
+	Chans     map[types.Object]string // channel variable (or the parameter it is passed as) -> name
+	Files     map[types.Object]bool   // the input and the parameters it is passed as
+	Reader    *goBody
+	Parser    *goBody
 	ReaderGo  *ast.GoStmt
 	ParserGo  *ast.GoStmt
 	NGo       int
@@ -39,13 +41,22 @@ type pfModel struct {
 	ProgObj   types.Object
 }
 
+// goBody is the code a go statement runs: a function literal or a named function.
+type goBody struct {
+	Body *ast.BlockStmt
+	P    token.Pos
+}
+
+func (g *goBody) Pos() token.Pos { return g.P }
+
 func (c *Ctx) parseFileModel() (*pfModel, error) {
 	_, fd := c.find("ParseFile")
 	if fd == nil {
 		return nil, fmt.Errorf("ParseFile not found")
 	}
-	m := &pfModel{Func: fd, Chans: map[types.Object]string{}}
+	m := &pfModel{Func: fd, Chans: map[types.Object]string{}, Files: map[types.Object]bool{}}
 	m.FileParam = c.paramObj(fd, 0)
+	m.Files[m.FileParam] = true
 	if fd.Type.Results != nil {
 		for _, f := range fd.Type.Results.List {
 			for _, n := range f.Names {
@@ -69,14 +80,36 @@ func (c *Ctx) parseFileModel() (*pfModel, error) {
 			}
 		case *ast.GoStmt:
 			m.NGo++
-			lit, ok := s.Call.Fun.(*ast.FuncLit)
-			if !ok {
+			var lit *goBody
+			if fl, ok := s.Call.Fun.(*ast.FuncLit); ok {
+				lit = &goBody{fl.Body, fl.Pos()}
+			} else if fn, ok := c.callee(s.Call).(*types.Func); ok {
+				// a named function: its parameters stand for the arguments
+				if hd := c.funcDecls[fn]; hd != nil && hd.Body != nil {
+					lit = &goBody{hd.Body, hd.Pos()}
+					for i, a := range s.Call.Args {
+						po := c.paramObj(hd, i)
+						if po == nil {
+							continue
+						}
+						if ao := c.objOfExpr(a); ao != nil {
+							if n, isCh := m.Chans[ao]; isCh {
+								m.Chans[po] = n
+							}
+							if m.Files[ao] {
+								m.Files[po] = true
+							}
+						}
+					}
+				}
+			}
+			if lit == nil {
 				continue
 			}
 			isReader, isParser := false, false
-			ast.Inspect(lit, func(n ast.Node) bool {
+			ast.Inspect(lit.Body, func(n ast.Node) bool {
 				if call, ok := n.(*ast.CallExpr); ok {
-					if sel, ok := call.Fun.(*ast.SelectorExpr); ok && sel.Sel.Name == "Read" && c.isObj(sel.X, m.FileParam) {
+					if sel, ok := call.Fun.(*ast.SelectorExpr); ok && sel.Sel.Name == "Read" && m.isFile(c, sel.X) {
 						isReader = true
 					}
 					if c.calleeName(call) == "parseWithOpts" {
@@ -97,6 +130,11 @@ func (c *Ctx) parseFileModel() (*pfModel, error) {
 		return m, fmt.Errorf("ParseFile: reader goroutine (calls f.Read) or parser goroutine (calls parseWithOpts) not found")
 	}
 	return m, nil
+}
+
+func (m *pfModel) isFile(c *Ctx, e ast.Expr) bool {
+	o := c.objOfExpr(e)
+	return o != nil && m.Files[o]
 }
 
 func (c *Ctx) concHooks(m *pfModel) Hooks {
@@ -146,7 +184,7 @@ func (c *Ctx) concHooks(m *pfModel) Hooks {
 		case "string":
 			return nil, false
 		}
-		if sel, ok := call.Fun.(*ast.SelectorExpr); ok && c.isObj(sel.X, m.FileParam) {
+		if sel, ok := call.Fun.(*ast.SelectorExpr); ok && m.isFile(c, sel.X) {
 			p.events = append(p.events, "call f."+sel.Sel.Name)
 			if sel.Sel.Name == "Read" {
 				return one(st, Value{K: vTuple, Tup: []Value{tagV("n", nil), tagV("err", nil)}}), true
@@ -184,6 +222,19 @@ func (c *Ctx) concHooks(m *pfModel) Hooks {
 			x, y = y, x
 		}
 		res := triUnknown
+		if p.rerrNil != "" && isNil(y) {
+			if id, ok := stripParens(x).(*ast.Ident); ok {
+				if v, ok := st.Env[c.objOf(id)]; ok && v.K == vTag && v.Tag == "recv:rerr" {
+					eq := p.rerrNil == "nil"
+					if be.Op == token.EQL {
+						return boolTri(eq)
+					}
+					if be.Op == token.NEQ {
+						return boolTri(!eq)
+					}
+				}
+			}
+		}
 		switch {
 		case p.errObj != nil && c.isObj(x, p.errObj) && p.err != "":
 			var eq bool
@@ -266,7 +317,7 @@ func (c *Ctx) readerModel(m *pfModel) *readerModel {
 		rm.Problems = append(rm.Problems, "the read loop has a condition; expected `for { ... }`")
 	}
 	deferDesc := func(call *ast.CallExpr) string {
-		if sel, ok := call.Fun.(*ast.SelectorExpr); ok && c.isObj(sel.X, m.FileParam) {
+		if sel, ok := call.Fun.(*ast.SelectorExpr); ok && m.isFile(c, sel.X) {
 			return "f." + sel.Sel.Name
 		}
 		return c.calleeName(call)
@@ -290,7 +341,7 @@ func (c *Ctx) readerModel(m *pfModel) *readerModel {
 			return true
 		}
 		if call, ok := as.Rhs[0].(*ast.CallExpr); ok {
-			if sel, ok := call.Fun.(*ast.SelectorExpr); ok && sel.Sel.Name == "Read" && c.isObj(sel.X, m.FileParam) {
+			if sel, ok := call.Fun.(*ast.SelectorExpr); ok && sel.Sel.Name == "Read" && m.isFile(c, sel.X) {
 				nObj, errObj = c.objOf(as.Lhs[0]), c.objOf(as.Lhs[1])
 			}
 		}
@@ -471,14 +522,20 @@ func ruleReaderProtocolMode(c *Ctx, r *Report, rule string, mode string) {
 	// Close deferred at entry, nothing else closes
 	okClose := len(rm.Deferred) == 1 && rm.Deferred[0] == "f.Close" && len(rm.Prologue) == 1
 	closeCalls := 0
-	ast.Inspect(m.Func.Body, func(n ast.Node) bool {
-		if call, ok := n.(*ast.CallExpr); ok {
-			if sel, ok := call.Fun.(*ast.SelectorExpr); ok && sel.Sel.Name == "Close" && c.isObj(sel.X, m.FileParam) {
-				closeCalls++
+	roots := []ast.Node{m.Func.Body}
+	if !(m.Func.Body.Pos() <= m.Reader.Body.Pos() && m.Reader.Body.End() <= m.Func.Body.End()) {
+		roots = append(roots, m.Reader.Body)
+	}
+	for _, root := range roots {
+		ast.Inspect(root, func(n ast.Node) bool {
+			if call, ok := n.(*ast.CallExpr); ok {
+				if sel, ok := call.Fun.(*ast.SelectorExpr); ok && sel.Sel.Name == "Close" && m.isFile(c, sel.X) {
+					closeCalls++
+				}
 			}
-		}
-		return true
-	})
+			return true
+		})
+	}
 	r.check(okClose && closeCalls == 1, rule, "close-once", "defer f.Close() is the reader's first statement and the only Close", fmt.Sprintf("the input must be closed by a `defer f.Close()` at the very start of the reader goroutine and nowhere else (deferred %v, %d Close call sites, prologue %v)", rm.Deferred, closeCalls, rm.Prologue), pos)
 }
 
@@ -566,37 +623,28 @@ func ruleParserProtocol(c *Ctx, r *Report, rule string) {
 		}
 	}
 	r.check(okCaller, rule, "caller", "go reader; go parser; <-rerr; <-perr; return", "ParseFile: "+whyC, c.pos(m.Func.Pos()))
-	// prefers the read error: err from rerr returned unless nil
-	okPrefer := false
-	var rerrVar, perrVar types.Object
-	for _, s := range m.Func.Body.List {
-		switch s := s.(type) {
-		case *ast.AssignStmt:
-			for i, rhs := range s.Rhs {
-				if ue, ok := rhs.(*ast.UnaryExpr); ok && ue.Op == token.ARROW && i < len(s.Lhs) {
-					if id, ok := stripParens(ue.X).(*ast.Ident); ok {
-						switch m.Chans[c.objOf(id)] {
-						case "rerr":
-							rerrVar = c.objOf(s.Lhs[i])
-						case "perr":
-							perrVar = c.objOf(s.Lhs[i])
-						}
-					}
-				}
+	// prefers the read error: interpret the caller twice — with the value received from rerr nil / non-nil —
+	// and look at which received value is returned as the error
+	okPrefer := true
+	whyP := ""
+	for _, sc := range []struct{ rerr, want string }{{"nil", "recv:perr"}, {"nonnil", "recv:rerr"}} {
+		st := &State{Env: map[types.Object]Value{}, P: &concPay{rerrNil: sc.rerr}}
+		res := in.execBlock([]*State{st}, callerStmts)
+		if len(res) == 0 {
+			okPrefer, whyP = false, "no path"
+		}
+		for _, x := range res {
+			got := "?"
+			if x.Term == tReturn && len(x.Ret) == 2 && x.Ret[1].K == vTag {
+				got = x.Ret[1].Tag
 			}
-		case *ast.IfStmt:
-			if be, ok := stripParens(s.Cond).(*ast.BinaryExpr); ok && be.Op == token.EQL && c.isObj(be.X, rerrVar) && len(s.Body.List) == 1 {
-				if as, ok := s.Body.List[0].(*ast.AssignStmt); ok && c.isObj(as.Lhs[0], rerrVar) && c.isObj(as.Rhs[0], perrVar) {
-					okPrefer = true
-				}
-			}
-		case *ast.ReturnStmt:
-			if okPrefer && !(len(s.Results) == 2 && c.isObj(s.Results[1], rerrVar)) {
+			if got != sc.want {
 				okPrefer = false
+				whyP = fmt.Sprintf("when the read error is %s, ParseFile returns %s as its error (expected %s)", sc.rerr, got, sc.want)
 			}
 		}
 	}
-	r.check(okPrefer, rule, "prefers-read-error", "returns the read error, else the parse error", "ParseFile must return the error received from rerr when it is non-nil, otherwise the one from perr", c.pos(m.Func.Pos()))
+	r.check(okPrefer, rule, "prefers-read-error", "returns the read error, else the parse error", "ParseFile must return the error received from rerr when it is non-nil, otherwise the one from perr: "+whyP, c.pos(m.Func.Pos()))
 	// channels unbuffered
 	okUnbuf := true
 	ast.Inspect(m.Func.Body, func(n ast.Node) bool {
